@@ -228,6 +228,9 @@ func httpServerModels(in *Interp, site ssa.CallInstruction, name string, args []
 		return Opaque{"xmlencoder", res.At(0).Type()}, true
 	case name == "(*encoding/xml.Encoder).Encode":
 		in.effect("xml.Encode", site.Pos())
+		// what is written (for rules that look inside the body; kept out of
+		// the plain effect so that sequence oracles stay as they are)
+		in.Trace = append(in.Trace, Effect{Name: "xml.Encode.value", Args: []Val{args[1]}, Pos: site.Pos()})
 		return kNil, true
 	case cc.IsInvoke() && cc.Method.Name() == "Read" && len(args) == 2:
 		// the request body: empty (EOF at once) or not
